@@ -39,6 +39,38 @@ def alphabet():
     return A
 
 
+def first_sample(schema_name, invalid=False):
+    for doc in samples():
+        if own_schema(doc) == 'json/%s.json' % schema_name and ('invalid' in doc) == invalid:
+            return 'sample-jsons/' + doc
+    return None
+
+
+def cross_calls():
+    """a valid sample of every family validated against the schema of every OTHER family (the answer is whatever a fresh process says)"""
+    out = []
+    fams = [s for s in SCHEMAS if s != 'metaschema']
+    for s in fams:
+        for t in fams:
+            d = first_sample(t)
+            if t != s and d:
+                out.append(('va', d, 'json/%s.json' % s, False))
+    return out
+
+
+def reduced_alphabet():
+    """per schema: a valid own sample, an invalid own sample, a sample of another family, the schema check itself"""
+    R = []
+    fams = [s for s in SCHEMAS if s != 'metaschema']
+    for i, s in enumerate(fams):
+        for d in (first_sample(s), first_sample(s, invalid=True), first_sample(fams[(i + 1) % len(fams)])):
+            if d:
+                R.append(('va', d, 'json/%s.json' % s, False))
+    for s in SCHEMAS:
+        R.append(('sv', 'json/%s.json' % s, 'Draft4Validator', False))
+    return R
+
+
 def key_of(call):
     return (call[0], call[1], call[2])
 
@@ -138,6 +170,9 @@ def run(tier):
     G = setup()
     A = alphabet()
     extra = [('sv', 'json/%s.json' % s, 'Draft6Validator', False) for s in SCHEMAS]
+    X = cross_calls()
+    R = reduced_alphabet()
+    extra += [c for c in X + R if c not in A and c not in extra]
     # ---- reference outcomes from fresh processes
     fr = hist.fresh_outcomes(A + extra, [common.REPO, '/'])
     fresh = {}
@@ -189,6 +224,16 @@ def run(tier):
         bykey.setdefault(key_of(c), []).append(c)
     triples = [list(t) for calls in bykey.values() for t in itertools.product(calls, repeat=3)]
     go('triples over calls sharing a cache key', work, [('triple', triples[i::16]) for i in range(16)])
+    # ---- documents against the schemas of other families: alone, and in ordered pairs with every call on the same schema or document
+    go('mismatched document/schema calls alone', work, [('single', [[c] for c in X[i::16]]) for i in range(16)])
+    files = lambda c: {c[1]} if c[0] == 'sv' else {c[1], c[2]}
+    xp = [[a, b] for a in X for b in A + X if files(a) & files(b)] + [[b, a] for a in X for b in A if files(a) & files(b)]
+    if tier == 'quick':
+        xp = [h for h in xp if not (h[0][3] or h[1][3])]
+    go('ordered pairs with a mismatched document/schema call', work, [('pair', xp[i::64]) for i in range(64)])
+    # ---- all triples over the reduced alphabet (state kept outside the two result caches shows only in such mixed histories)
+    triples = [list(t) for t in itertools.product(R, repeat=3)]
+    go('all triples over the reduced alphabet of %d calls' % len(R), work, [('triple', triples[i::64]) for i in range(64)])
     # ---- saturated histories
     probes = A if tier == 'thorough' else [c for c in A if c[0] == 'sv'] + [c for c in A if c[0] == 'va'][::3]
     go('saturated histories around %d probes (19/20/21 distinct keys)' % len(probes), sat_work, [(probes[i::32],) for i in range(32)])
